@@ -78,6 +78,40 @@ def random_ldpc(rng, count, kmax, cbs=(None,), apis=("recv", "setavail"), payloa
     return execs
 
 
+def dense_ldpc(rng, count, cbs=(None,), finish_choices=(False,), probe="each"):
+    """high-degree codes (N1 close to n-k): one arrival brings many equations to degree one at once,
+    long recursion chains, growth of the degree-one work table"""
+    execs = []
+    for _ in range(count):
+        k = rng.randint(3, 12)
+        r = rng.randint(5, 10)
+        n1 = rng.choice([r, r - 1, max(3, r - 2)])
+        p = P(3, k, r, N1=n1, seed=rng.randint(1, 2 ** 31 - 2), length=gen.need_len(3, k, 0) + rng.choice([0, 1]))
+        # most repairs first, then sources in random order with a few missing: peeling cascades
+        reps = [e for e in range(k, p.n) if rng.random() < 0.9]
+        srcs = [e for e in range(k) if rng.random() < 0.8]
+        rng.shuffle(reps)
+        rng.shuffle(srcs)
+        order = reps + srcs if rng.random() < 0.7 else srcs + reps
+        if rng.random() < 0.3:
+            rng.shuffle(order)
+        execs.append(gen.decode_exec(p, order, api="recv", finish=rng.choice(finish_choices), cb=rng.choice(cbs), probe=probe))
+    return execs
+
+
+def big_ldpc(rng, ks, finish=True):
+    """sizes beyond one allocation block of the sparse matrix (1024 entries) and 16 / 32 / 64-bit word boundaries"""
+    execs = []
+    for k in ks:
+        r = max(3, k // rng.choice([2, 3]))
+        p = P(3, k, r, N1=rng.choice([3, 4, 5]), seed=rng.randint(1, 10 ** 9), length=rng.choice([1, 4, 9]), payload="rnd")
+        keep = min(1.0, k / p.n + rng.uniform(0.02, 0.12))
+        sub = [e for e in range(p.n) if rng.random() < keep]
+        rng.shuffle(sub)
+        execs.append(gen.decode_exec(p, sub, api="recv", finish=finish, cb=rng.choice([None, "buf"]), probe="end"))
+    return execs
+
+
 def random_rs(rng, count, nmax, cbs=(None,), apis=("recv", "setavail"), payloads=("id", "rnd")):
     execs = []
     for _ in range(count):
@@ -172,6 +206,8 @@ def workload(pid, tier, rng):
         execs += rs_exhaustive(rs_small, rng, apis=("recv", "setavail"), orders=1, probe="end", cbs=(None, "buf"))
         execs += random_ldpc(rng, 300 if q else 3000, 40 if q else 64, cbs=cbs_all)
         execs += random_ldpc(rng, 10 if q else 100, 300, cbs=(None, "buf"), payloads=("rnd",), dup=False)
+        execs += dense_ldpc(rng, 100 if q else 1500, cbs=cbs_all, finish_choices=(True, False), probe="end")
+        execs += big_ldpc(rng, [400, 700] if q else [400, 700, 1100, 2000, 5000])
         execs += random_rs(rng, 300 if q else 3000, 40 if q else 255, cbs=cbs_all)
         execs += random_rs(rng, 20 if q else 300, 255, cbs=(None, "buf"), payloads=("rnd",))
     elif pid == "C02":
@@ -181,6 +217,8 @@ def workload(pid, tier, rng):
     elif pid == "C03":
         execs += ldpc_exhaustive(ld_small, rng, apis=("recv", "setavail"), finish=(True,), orders=1 if q else 3, probe="end")
         execs += ldpc_exhaustive(ld_mid, rng, apis=("recv",), finish=(True,), orders=1, probe="end", maxsub=800 if q else 8000)
+        execs += dense_ldpc(rng, 100 if q else 1500, finish_choices=(True,), probe="end")
+        execs += big_ldpc(rng, [350, 600] if q else [350, 600, 1100, 2500, 6000])
         for sd in (1, 7, 12345):
             ex = random_ldpc(rng, 60 if q else 600, 48 if q else 64, apis=("recv", "setavail"), finish_choices=(True,),
                              probe_choices=("end",))
@@ -192,6 +230,8 @@ def workload(pid, tier, rng):
                              probe_choices=("each",))
         execs += random_ldpc(rng, 8 if q else 60, 300, apis=("recv",), finish_choices=(False,), probe_choices=("end",),
                              payloads=("id",), dup=False)
+        execs += dense_ldpc(rng, 200 if q else 3000)
+        execs += [e for e in big_ldpc(rng, [450, 800] if q else [450, 800, 1500, 3000], finish=False)]
     elif pid == "C10":
         execs += ldpc_exhaustive(ld_small[:4 if q else 8], rng, apis=("recv", "setavail"), finish=(True,), orders=1, probe="each")
         execs += rs_exhaustive(rs_small, rng, apis=("recv", "setavail"), orders=1, probe="each")
